@@ -214,7 +214,27 @@ def run(ctx, host=None):
         mf = ci.methods.get(closer)
         closes = mf is not None and any(isinstance(c, ast.Call) and isinstance(c.func, ast.Attribute) and c.func.attr == 'close' and attr in norm(c.func.value)
                                         for c in walk_local(mf.node))
-        if closes:
+        # the close must also happen when the `with` block (or the publishing code) raised: at least one close() that is not under a test of the exception
+        # argument and not inside the body of a try (a `finally`, or straight-line code)
+        always = False
+        if mf is not None:
+            for c in walk_local(mf.node):
+                if isinstance(c, ast.Call) and isinstance(c.func, ast.Attribute) and c.func.attr == 'close' and attr in norm(c.func.value):
+                    ok_here = True
+                    a, child = getattr(c, '_parent', None), c
+                    while a is not None and a is not mf.node:
+                        if isinstance(a, ast.If) and any(isinstance(x, ast.Name) and x.id in ('exc_type', 'value', 'exc_value', 'traceback') for x in ast.walk(a.test)):
+                            ok_here = False
+                        if isinstance(a, ast.Try) and any(child is x or any(child is y for y in ast.walk(x)) for x in a.body + a.orelse):
+                            ok_here = False
+                        if isinstance(a, ast.ExceptHandler):
+                            ok_here = False
+                        child, a = a, getattr(a, '_parent', None)
+                    always = always or ok_here
+        if closes and not always and closer == '__exit__':
+            chk.bad(R1, f'{clsq}.{closer}', f'self.{attr}.close()', f'`{closer}` closes `{attr}` only on the success path: when the with-block or the publishing code raises, the descriptor stays open '
+                    '(one leaked descriptor per failed write)', where=f'{ci.module.relpath}:{mf.lineno}')
+        elif closes:
             chk.ok(R1, f'{clsq}.{closer}', f'self.{attr}.close()', detail='the owner closes the handle it stores', nontrivial=False)
         else:
             chk.bad(R1, f'{clsq}.{closer}', f'self.{attr}', f'{clsq} stores an open handle in `{attr}` but `{closer}` no longer closes it', where=f'{ci.module.relpath}:{ci.node.lineno}')
